@@ -323,6 +323,13 @@ func GenWith(r *hx.Rand, shared bool) *Desc {
 	for i := 0; i < ng; i++ {
 		d.Globals = append(d.Globals, r.Intn(n))
 	}
+	// a struct sum with exactly one operand frozen beforehand is usually kept in a global
+	for _, nd := range d.Nodes {
+		if nd.Kind == "ssum" && d.Nodes[nd.A].PreFrozen != d.Nodes[nd.B].PreFrozen && r.Intn(3) > 0 {
+			d.Globals = append(d.Globals, nd.ID)
+			ng++
+		}
+	}
 	switch r.Intn(10) {
 	case 0, 1:
 		d.FailGlobal = r.Intn(ng + 1)
@@ -478,13 +485,21 @@ func (in *Instance) Value(v Val) starlark.Value {
 
 var fileOpts = &syntax.FileOptions{Set: true, GlobalReassign: true, TopLevelControl: true}
 
-func Instantiate(d *Desc, src string) *Instance {
+func Instantiate(d *Desc, src string) *Instance { return InstantiateWith(d, src, nil) }
+
+// InstantiateWith calls onReg(id, v) when the module registers object id, i.e.
+// while the module is still running and v is still mutable (host values: right
+// after they are created, before the host freezes any of them).
+func InstantiateWith(d *Desc, src string, onReg func(id int, v starlark.Value)) *Instance {
 	in := &Instance{D: d, Objs: make([]starlark.Value, len(d.Nodes)), Thread: &starlark.Thread{Name: "c04"}}
 	pre := starlark.StringDict{
 		"struct": starlark.NewBuiltin("struct", starlarkstruct.Make),
 		"reg": starlark.NewBuiltin("reg", func(_ *starlark.Thread, _ *starlark.Builtin, args starlark.Tuple, _ []starlark.Tuple) (starlark.Value, error) {
 			id, _ := starlark.AsInt32(args[0])
 			in.Objs[id] = args[1]
+			if onReg != nil {
+				onReg(id, args[1])
+			}
 			return args[1], nil
 		}),
 		"pick": starlark.NewBuiltin("pick", func(_ *starlark.Thread, _ *starlark.Builtin, args starlark.Tuple, _ []starlark.Tuple) (starlark.Value, error) {
@@ -530,6 +545,13 @@ func Instantiate(d *Desc, src string) *Instance {
 			in.Objs[nd.ID] = starlarkstruct.FromStringDict(starlarkstruct.Default, sd)
 		}
 		pre[fmt.Sprintf("h%d", nd.ID)] = in.Objs[nd.ID]
+	}
+	if onReg != nil {
+		for _, nd := range d.Nodes {
+			if nd.Host {
+				onReg(nd.ID, in.Objs[nd.ID])
+			}
+		}
 	}
 	for _, nd := range d.Nodes {
 		if nd.Host && nd.PreFrozen {
